@@ -93,7 +93,7 @@ theorem R_attr {text : Bytes} {s : CSt} {r : RSt} (h1 : AttrSt s) (h2 : AttrRef 
 
 /-- the tail of an iteration when the states after the byte (and after a CR that follows a LF)
 are related whatever the position -/
-theorem tail_ok {U : Unicode} {text : Bytes} {n : Nat} (H : Hole text n) {s s1 : CSt} {c : UInt8}
+theorem tail_ok {U : Unicode} {text : Bytes} {lo n : Nat} (H : Hole text lo n) {s s1 : CSt} {c : UInt8}
     (hlt : s.pos < n) (hc : text[s.pos]? = some c) (hsw : ctxSwitchP U text s c = (s1, true))
     (hpos : s1.pos = s.pos)
     (h1 : R text { s1 with pos := s.pos + 1 } (rs text (s.pos + 1)))
@@ -133,7 +133,7 @@ theorem alpha_lt (c : UInt8) (h : isAlpha c = true) : c < 0x80 := by
   have := allBytes_spec (p := fun c => !isAlpha c || decide (c < 0x80)) (by decide +kernel) c
   simpa [h] using this
 
-theorem step_html {U : Unicode} {text : Bytes} {n : Nat} (H : Hole text n) {s : CSt} (hlt : s.pos < n)
+theorem step_html {U : Unicode} {text : Bytes} {lo n : Nat} (H : Hole text lo n) {s : CSt} (hlt : s.pos < n)
     (hctx : s.ctx = ContextHTML) (hcl : Clean s) (hr : HtmlRef text s.pos (rs text s.pos)) :
     StepOK U text n s := by
   obtain ⟨c, hc⟩ := H.get (Nat.le_of_lt hlt)
@@ -340,7 +340,7 @@ theorem AttrRef_congr {text : Bytes} {s s' : CSt} {r : RSt} (h : AttrRef text s 
     (h5 : s'.quote = s.quote) : AttrRef text s' r := by
   cases r <;> simp only [AttrRef, h1, h2, h3, h4, h5] at h ⊢ <;> exact h
 
-theorem step_tag {U : Unicode} {text : Bytes} {n : Nat} (H : Hole text n) {s : CSt} (hlt : s.pos < n)
+theorem step_tag {U : Unicode} {text : Bytes} {lo n : Nat} (H : Hole text lo n) {s : CSt} (hlt : s.pos < n)
     (hctx : s.ctx = ContextTag) (hst : TagSt s) (hr : TagRef text s.pos s.tagName (rs text s.pos)) :
     StepOK U text n s := by
   obtain ⟨c, hc⟩ := H.get (Nat.le_of_lt hlt)
@@ -473,7 +473,7 @@ theorem caseAttrP_stay (U : Unicode) (text : Bytes) (s : CSt) (c : UInt8)
     caseAttrP U text s c = (s, true) := by
   simp only [caseAttrP, hcond, if_false]
 
-theorem step_attr {U : Unicode} {text : Bytes} {n : Nat} (H : Hole text n) {s : CSt} (hlt : s.pos < n)
+theorem step_attr {U : Unicode} {text : Bytes} {lo n : Nat} (H : Hole text lo n) {s : CSt} (hlt : s.pos < n)
     (hst : AttrSt s) (hr : AttrRef text s (rs text s.pos)) : StepOK U text n s := by
   obtain ⟨c, hc⟩ := H.get (Nat.le_of_lt hlt)
   have hg := H.step hlt hc
